@@ -1,4 +1,5 @@
 import Firebolt.Properties.C01
+import Firebolt.Properties.ExecFlow
 /-!
 # C16 — Per-node metrics account for every event exactly once
 Denotational part; the counter invariant under every interleaving is in `Properties/Exec*.lean`.
@@ -40,5 +41,20 @@ theorem skeleton_processEvent : Generated.processEvent = Expected.processEvent :
 theorem skeleton_handleResult : Generated.handleResult = Expected.handleResult := by rfl
 theorem skeleton_handleFailure : Generated.handleFailure = Expected.handleFailure := by rfl
 theorem skeleton_deliverToChild : Generated.deliverToChild = Expected.deliverToChild := by rfl
+
+
+open Firebolt.Exec in
+/-- counters at quiescence for every interleaving: received = events handed over = processed + filtered + failed, each
+counting exactly the events with that outcome -/
+theorem counters_any_schedule (c : Cfg) (caps : Nat → Nat) (disc : Nat → Bool) (as : List Act) (s : St)
+    (hr : run c (init c caps disc) as = some s) (ht : Terminal c s) :
+    s.received = s.upSent.length ∧ s.received = s.processed + s.filtered + s.failed ∧
+    s.processed = (s.upSent.filter (passB c)).length ∧ s.filtered = (s.upSent.filter (filterB c)).length ∧
+    s.failed = (s.upSent.filter (errorB c)).length := terminal_counters c s (reachable_all c caps disc as s hr) ht
+
+open Firebolt.Exec in
+theorem discarded_counter_any_schedule (c : Cfg) (caps : Nat → Nat) (disc : Nat → Bool) (as : List Act) (s : St)
+    (hr : run c (init c caps disc) as = some s) (k : Nat) : s.discarded k = (s.dropped k).length :=
+  (reachable_all c caps disc as s hr).chan.counted k
 
 end Firebolt.C16
